@@ -5,9 +5,10 @@
     render_float, render_float_sci, format_code, format_arr, format_obj, get_dotted_field) and
     of std_format's dispatch (stdlib/mod.rs).  Strings are lists of code points ([list N]);
     the parser only ever tests and splits at ASCII characters, so parsing the code points is
-    parsing the UTF-8 bytes.  `u16` arithmetic is written out: unchecked `*`, `+`, `-` become
-    [chk16]/[sub16] whose failure [Err EPanic] is the model of the overflow panic of a
-    checked build; `saturating_sub` is [N.sub].  `iv.floor() as i64` saturates ([sat_i64]).
+    parsing the UTF-8 bytes.  `u16` arithmetic is written out: `checked_mul/checked_add` of the width
+    accumulator is [chk16] (failure = the FieldWidthTooLarge error), the unchecked `-` of the
+    %g arm is [sub16] (failure [Err EPanic] = the overflow panic of a checked build; proved
+    unreachable), `saturating_sub`/`saturating_add` are [N.sub]/[N.min].  `iv.floor() as i64` saturates ([sat_i64]).
     The tables (conversion letters, flag letters, length modifiers, digit alphabet, radixes,
     prefixes, default precisions) come from Gen/GenFormat.v, regenerated from the source.
     Numbers are exact rationals num/den (every finite double is one); the float renderers are
@@ -35,7 +36,8 @@ Inductive err :=
 | ENoField          (* SubfieldNotFound / SubfieldDidntYieldAnObject / no such field *)
 | EType             (* wrong argument type, star argument not a u16 *)
 | EChar             (* %c: not one character / invalid code point *)
-| EPanic            (* arithmetic overflow panic (impl-model only) *)
+| ETooLarge         (* FieldWidthTooLarge: a width / precision above 65535 *)
+| EPanic            (* arithmetic overflow / debug_assert panic (impl-model only) *)
 | EFuel.            (* model fuel exhausted (never judged) *)
 
 Inductive res (A : Type) := Ok (a : A) | Err (e : err).
@@ -86,8 +88,8 @@ Fixpoint memN (k : N) (l : list N) : bool :=
 
 (* ================================================================== IMPL-MODEL: parser *)
 Definition u16_max : N := 65535.
-(** an unchecked u16 `+`/`*` whose exact result is [n] *)
-Definition chk16 (n : N) : res N := if n <=? u16_max then Ok n else Err EPanic.
+(** `checked_mul` / `checked_add` in u16 with exact result [n], `.ok_or(FieldWidthTooLarge)?` *)
+Definition chk16 (n : N) : res N := if n <=? u16_max then Ok n else Err ETooLarge.
 (** an unchecked u16 `a - b` *)
 Definition sub16 (a b : N) : res N := if b <=? a then Ok (a - b) else Err EPanic.
 
@@ -117,7 +119,8 @@ Definition impl_cflags (s : list N) := impl_cflags_loop s no_flags.
 Definition digit_of (c : N) : option N :=
   if (48 <=? c) && (c <=? 57) then Some (c - 48) else None.
 
-(** try_parse_field_width: `out *= 10; out += digit` in u16, then the end-of-input test *)
+(** try_parse_field_width: `out.checked_mul(10).and_then(checked_add digit)` in u16, then the
+    end-of-input test *)
 Fixpoint impl_width_loop (s : list N) (out : N) : res (N * list N) :=
   match s with
   | [] => Err ETrunc
@@ -146,11 +149,11 @@ Definition impl_precision (s : list N) : res (option width * list N) :=
   | c :: t => if c =? ch_dot then do wr <- impl_field_width t; Ok (Some (fst wr), snd wr)
               else Ok (None, s)
   end.
-(** try_parse_length_modifier: skips ANY NUMBER of h/l/L *)
-Fixpoint impl_lenmod (s : list N) : res (list N) :=
+(** try_parse_length_modifier: skips at most one h/l/L *)
+Definition impl_lenmod (s : list N) : res (list N) :=
   match s with
   | [] => Err ETrunc
-  | c :: t => if memN c lenmod_chars then impl_lenmod t else Ok s
+  | c :: t => if memN c lenmod_chars then match t with [] => Err ETrunc | _ => Ok t end else Ok s
   end.
 Definition impl_convtype (s : list N) : res ((gconv * bool) * list N) :=
   match s with
@@ -258,7 +261,9 @@ Definition spec_field_width (s : list N) : res (width * list N) :=
   | c :: t =>
       if c =? ch_star then Ok (WStar, t)
       else let r := span is_digit s in
-           match snd r with [] => Err ETrunc | _ => Ok (WFixed (decimal (fst r)), snd r) end
+           (* a field width / precision is at most 65535 (stated limit; an error, reported first) *)
+           if u16_max <? decimal (fst r) then Err ETooLarge
+           else match snd r with [] => Err ETrunc | _ => Ok (WFixed (decimal (fst r)), snd r) end
   end.
 Definition spec_precision (s : list N) : res (option width * list N) :=
   match s with
@@ -287,14 +292,6 @@ Definition spec_parse_code (s : list N) : res (code * list N) :=
   Ok ({| c_mkey := fst kr; c_flags := fst fr; c_width := fst wr; c_prec := fst pr;
          c_type := fst (fst cr); c_caps := snd (fst cr) |}, snd cr).
 Definition spec_parse_codes := parse_codes spec_parse_code.
-
-(** the finding class "repeated length modifier": the grammar rejects the second modifier
-    letter as an unknown conversion, the code skips it *)
-Definition known_lenmod (s : list N) : bool :=
-  match spec_parse_codes s with
-  | Err (EUnrec c) => is_lenmod c
-  | _ => false
-  end.
 
 (* ================================================================== values *)
 (** [VNum num den shown]: the number num/den (den > 0) and its std.toString text;
@@ -359,20 +356,21 @@ Definition impl_render_integer (neg : bool) (iv : Z) (padding precision : N) (bl
   let zp2 := (N.max (zp - (if prefix_in_padding then 0 else pref_len)) precision
               - ((if prefix_in_padding then pref_len else 0) + lenN digits))%N in
   sign_chars neg sign blank
-  ++ (if iv =? 0 then [] else zero_prefix)
+  ++ (if (iv =? 0) && prefix_in_padding then [] else zero_prefix)
   ++ repeat ch_zero (N.to_nat zp2)
   ++ map (digit_char caps) (rev digits).
 
 Definition impl_render_decimal (neg : bool) (iv : Z) (padding precision : N) (blank sign : bool) :=
   impl_render_integer neg iv padding precision blank sign radix_decimal prefix_decimal
                       prefix_in_padding_decimal caps_decimal.
-(** [nonzero]: the float handed in is != 0.0 (tested BEFORE the floor) *)
-Definition impl_render_octal (neg : bool) (nonzero : bool) (iv : Z) (padding precision : N)
+(** `if alt && iv >= 1.0` on the magnitude: the same as floor(iv) >= 1 *)
+Definition impl_render_octal (neg : bool) (iv : Z) (padding precision : N)
            (alt blank sign : bool) :=
   impl_render_integer neg iv padding precision blank sign radix_octal
-                      (if alt && nonzero then prefix_octal else []) prefix_in_padding_octal caps_octal.
-Definition impl_render_hex (neg : bool) (iv : Z) (padding precision : N) (alt blank sign caps : bool) :=
-  impl_render_integer neg iv padding precision blank sign radix_hex
+                      (if alt && (1 <=? iv) then prefix_octal else []) prefix_in_padding_octal caps_octal.
+(** [n]: the FLOORED argument (format_code passes value.floor()); `iv < 0.0`, `iv.abs()` *)
+Definition impl_render_hex (n : Z) (padding precision : N) (alt blank sign caps : bool) :=
+  impl_render_integer (n <? 0) (Z.abs n) padding precision blank sign radix_hex
                       (if alt then (if caps then prefix_hex_upper else prefix_hex_lower) else [])
                       prefix_in_padding_hex caps.
 
@@ -453,8 +451,8 @@ Definition impl_render_float (num den : Z) (padding precision : N) (blank sign e
   (* 10.0f64.powi(precision) is +inf from 10^309 on: numerator, whole and frac are inf/NaN and the
      debug_assert!(iv >= 0.0) of render_integer fails (a checked build panics) *)
   if (308 <? precision)%N then Err EPanic else
-  do dp <- chk16 (dot_size + precision);
-  let padding := (padding - dp)%N in
+  (* padding.saturating_sub(precision.saturating_add(dot_size)) *)
+  let padding := (padding - N.min u16_max (precision + dot_size))%N in
   let out := impl_render_decimal (num <? 0) whole padding 0 blank sign in
   if (precision =? 0)%N then Ok (out ++ (if ensure_pt then [ch_dot] else []))
   else if trailing || (frac >? 0) then
@@ -473,7 +471,8 @@ Definition impl_render_float_sci (num den : Z) (padding precision : N)
   Ok (body ++ [if caps then ch_E else ch_e] ++ exponent_str).
 
 (** the Shorter (%g) arm of format_code *)
-Definition impl_render_shorter (num den : Z) (padding fpprec : N) (blank sign alt caps : bool) : res (list N) :=
+Definition impl_render_shorter (num den : Z) (padding fpprec0 : N) (blank sign alt caps : bool) : res (list N) :=
+  let fpprec := N.max fpprec0 1 in     (* let fpprec = fpprec.max(1) *)
   let e := exp10 num den in
   if (e <? -4) || (e >=? Z.of_N fpprec) then
     do p1 <- sub16 fpprec 1;
@@ -531,9 +530,9 @@ Definition le_m1 (num den : Z) : bool := (num <? 0) && (floor_abs num den >=? 1)
 Definition as_num (v : value) : res (Z * Z) :=
   match v with VNum n d _ => Ok (n, d) | _ => Err EType end.
 
-(** final padding: `width.saturating_sub(tmp_out.len() as u16)` — BYTES, cast truncates *)
+(** final padding: `width.saturating_sub(u16::try_from(tmp_out.chars().count()).unwrap_or(u16::MAX))` *)
 Definition impl_pad (left : bool) (width : N) (tmp : list N) : list N :=
-  let padding := (width - (byte_len tmp mod 65536))%N in
+  let padding := (width - (if lenN tmp <=? u16_max then lenN tmp else u16_max))%N in
   if left then tmp ++ repeat ch_space (N.to_nat padding)
   else repeat ch_space (N.to_nat padding) ++ tmp.
 Definition spec_pad (left : bool) (width : N) (tmp : list N) : list N :=
@@ -556,11 +555,11 @@ Definition impl_format_tmp (v : value) (c : code) (width : N) (precision : optio
                               (f_blank fl) (f_sign fl))
   | GOctal =>
       do nd <- as_num v;
-      Ok (impl_render_octal (le_m1 (fst nd) (snd nd)) (negb (fst nd =? 0)) (floor_abs (fst nd) (snd nd))
+      Ok (impl_render_octal (le_m1 (fst nd) (snd nd)) (floor_abs (fst nd) (snd nd))
                             padding iprec (f_alt fl) (f_blank fl) (f_sign fl))
   | GHexadecimal =>
       do nd <- as_num v;
-      Ok (impl_render_hex (fst nd <? 0) (floor_abs (fst nd) (snd nd)) padding iprec
+      Ok (impl_render_hex (fst nd / snd nd) padding iprec
                           (f_alt fl) (f_blank fl) (f_sign fl) (c_caps c))
   | GScientific =>
       do nd <- as_num v;
@@ -573,7 +572,9 @@ Definition impl_format_tmp (v : value) (c : code) (width : N) (precision : optio
       impl_render_shorter (fst nd) (snd nd) padding fpprec (f_blank fl) (f_sign fl) (f_alt fl) (c_caps c)
   | GChar =>
       match v with
-      | VNum n d _ => let u := as_u32 n d in if valid_scalar u then Ok [Z.to_N u] else Err EChar
+      | VNum n d _ =>
+          if le_m1 n d then Err EChar      (* if n <= -1.0 { bail!(..) } *)
+          else let u := as_u32 n d in if valid_scalar u then Ok [Z.to_N u] else Err EChar
       | VStr s => match s with [_] => Ok s | _ => Err EChar end
       | _ => Err EType
       end
@@ -633,19 +634,10 @@ Definition wf_value (v : value) : Prop := match v with VNum _ d _ => 0 < d | _ =
 Definition is_int_conv (t : gconv) : bool :=
   match t with GDecimal | GOctal | GHexadecimal => true | _ => false end.
 (** integer conversions on which the code is known to differ from the specification:
-    |x| >= 2^63 (`as i64` saturates), `%#o` of 0 < |x| < 1 (prefix counted but not written),
-    `%#x` of |x| < 1 (prefix dropped), `%x` of a negative non-integer (floor of the magnitude
-    instead of the magnitude of the floor) *)
+    |floor x| >= 2^63 (`as i64` saturates) *)
 Definition known_int_class (v : value) (c : code) : bool :=
   match v with
-  | VNum n d _ =>
-      let m := floor_abs n d in
-      (2 ^ 63 <=? m)
-      || match c_type c with
-         | GOctal => f_alt (c_flags c) && negb (n =? 0) && (m =? 0)
-         | GHexadecimal => (f_alt (c_flags c) && (m =? 0)) || ((n <? 0) && negb (n mod d =? 0))
-         | _ => false
-         end
+  | VNum n d _ => (2 ^ 63 <=? floor_abs n d) || (2 ^ 63 <=? Z.abs (n / d))
   | _ => false
   end.
 
@@ -656,10 +648,10 @@ Definition impl_u16_of (v : value) : res N :=
   | VNum n d _ => if (n mod d =? 0) && (0 <=? n / d) && (n / d <=? 65535) then Ok (Z.to_N (n / d)) else Err EType
   | _ => Err EType
   end.
-(** SPEC: a `*` argument is a non-negative integer *)
+(** SPEC: a `*` argument is a non-negative integer within the field-width limit *)
 Definition spec_nat_of (v : value) : res N :=
   match v with
-  | VNum n d _ => if (n mod d =? 0) && (0 <=? n / d) then Ok (Z.to_N (n / d)) else Err EType
+  | VNum n d _ => if (n mod d =? 0) && (0 <=? n / d) && (n / d <=? 65535) then Ok (Z.to_N (n / d)) else Err EType
   | _ => Err EType
   end.
 
@@ -766,18 +758,18 @@ Fixpoint need (es : list element) : nat :=
 Definition err_class (e : err) : N :=
   match e with
   | ETrunc => 1 | EUnrec _ => 2 | ENotEnough => 3 | ETooMany => 4 | EStarObj => 5 | EKeysReq => 6
-  | ENoField => 7 | EType => 8 | EChar => 9 | EPanic => 10 | EFuel => 11
+  | ENoField => 7 | EType => 8 | EChar => 9 | EPanic => 10 | EFuel => 11 | ETooLarge => 12
   end%N.
 Definition show (r : res (list N)) : N * list N :=
   match r with Ok s => (0%N, s) | Err e => (err_class e, []) end.
 Definition shown_eqb (a b : N * list N) : bool := (fst a =? fst b)%N && list_eqb (snd a) (snd b).
-(** (impl result, [] when the spec result is the same else [spec result], repeated-length-modifier class) *)
-Definition run_case (fmt : list N) (t : top) : (N * list N) * list (N * list N) * bool :=
+(** (impl result, [] when the spec result is the same else [spec result]) *)
+Definition run_case (fmt : list N) (t : top) : (N * list N) * list (N * list N) :=
   let i := show (impl_std_format fmt t) in
   let s := show (spec_std_format fmt t) in
-  (i, if shown_eqb i s then [] else [s], known_lenmod fmt).
+  (i, if shown_eqb i s then [] else [s]).
 Definition run_cases (fmt : list N) (ts : list top) := map (run_case fmt) ts.
 (** parse only (for widths too large to render inside Coq) *)
 Definition parse_class (r : res (list element)) : N := match r with Ok _ => 0%N | Err e => err_class e end.
-Definition run_parse (fmt : list N) : N * N * bool :=
-  (parse_class (impl_parse_codes fmt), parse_class (spec_parse_codes fmt), known_lenmod fmt).
+Definition run_parse (fmt : list N) : N * N :=
+  (parse_class (impl_parse_codes fmt), parse_class (spec_parse_codes fmt)).
